@@ -257,7 +257,8 @@ class PrimaiteGame:
         net = sim.network
 
         simulation_config = cfg.get("simulation", {})
-        defaults_config = cfg.get("defaults", {})
+        # the shipped scenarios state their defaults inside the simulation section
+        defaults_config = {**(cfg.get("defaults") or {}), **(simulation_config.get("defaults") or {})}
         network_config = simulation_config.get("network", {})
         airspace_cfg = network_config.get("airspace", {})
         frequency_max_capacity_mbps_cfg = airspace_cfg.get("frequency_max_capacity_mbps", {})
